@@ -8,6 +8,17 @@ BASELINE = ("cd /repo && /venv/bin/python -m pytest -ra -q -p no:cacheprovider -
             "--continue-on-collection-errors")
 
 CLAIMED = {
+    'C01': dict(
+        category='exploration', design_ref='DESIGN.md §3 C01',
+        technique='runtime monitoring: reference-model oracle (independent bit-string encoder) over real CLI runs on generated '
+                  'ISA definitions; append_bits trace monitor',
+        text='Statements synthesised from generated ISA definitions (all operand types, sizes 1..64, endian, alignment, '
+             'code positions, reverse options) are assembled by the real CLI; the image bytes at each statement\'s address must '
+             'equal the bit string an independent encoder derives from the ISA definition; the exhaustive size x align x endian '
+             'x bit-offset grid runs in both tiers; the PackedBits.append_bits trace of every instruction is compared with the '
+             'model\'s field list. Held on the executions observed only.',
+        note='Trusted: vf/model/encode.py (field order / packing rules listed in evidence.assumptions), the generator\'s '
+             'promise of textually disjoint alternatives.'),
     'C07': dict(
         category='exploration', design_ref='DESIGN.md §3 C07',
         technique='runtime monitoring: reference-model oracle (exact-arithmetic evaluator + independent grammar recogniser) '
